@@ -185,6 +185,15 @@ pub fn exec_action(w: &Rc<World>, a: &Action) {
             };
             w.register(NodeH::P(n), rk, None, true, all_clean(w, &[x, y]), hb);
         }
+        Action::NewMapRef { src, proj } if *proj == 2 => {
+            // the identity view of a scalar node (of any kind: map_with_old, bind, another view, ...)
+            let Some(s) = w.pick(Pool::I, *src) else { return skipped(w, "no node") };
+            let hb = hb_of(w, &[s]) + 1;
+            if !fits(w, hb) { return skipped(w, "height") }
+            let input = incr_i(w, s).unwrap();
+            let n = input.map_ref(|x: &i64| x);
+            w.register(NodeH::I(n), RK::MapRef { src: s, proj: 2 }, None, true, all_clean(w, &[s]), hb);
+        }
         Action::NewMapRef { src, proj } => {
             let Some(s) = w.pick(Pool::P, *src) else { return skipped(w, "no node") };
             let hb = hb_of(w, &[s]) + 1;
